@@ -51,9 +51,9 @@ FORMS = {
 FORMS8 = ["s0", "o11", "n1", "n2", "l1111", "l2121", "x", "s9"]
 
 
-def form_params(prefix, form):
+def form_params(prefix, form, lmax=7):
     code, spec = FORMS[form]
-    ps = [(prefix + "L", (0, 7))]
+    ps = [(prefix + "L", (0, lmax))]
     i = 0
     for sp in spec:
         if sp == "c7":
@@ -103,8 +103,11 @@ def _eq_tuples(xs, ys):
 
 def loc_ob(forms, which, tier):
     params = [("fl", (1, 1000000))]
+    # the code-unit count of an entry (1..8) multiplies the paths of the per-unit expansion: full range for single
+    # entries, 1..2 units per entry in multi-entry tables
+    lmax = 7 if len(forms) == 1 and not any(f in ("n3", "l3111") for f in forms) else 1
     for i, f in enumerate(forms):
-        params += form_params("e%d" % i, f)
+        params += form_params("e%d" % i, f, lmax)
 
     def table(kw):
         items = []
@@ -275,5 +278,7 @@ def generate(tier, seed):
         for which in ("lines", "entries", "positions"):
             if tier == "quick" and which == "lines" and any(f in ("n3", "l3111") for f in fs):
                 continue  # 3-byte varints in the co_lines walker need > 60 s of z3 time: thorough tier only
+            if tier == "quick" and len(fs) > 1 and all(f.startswith("l") for f in fs):
+                continue  # two long-form entries: > 60 s of z3 time, thorough tier only
             obs.append(loc_ob(fs, which, tier))
     return obs
